@@ -64,7 +64,7 @@ var stubCommon = []string{"kernel filesystem (simos in-memory disk with fault an
 
 var specs = map[string]*checkSpec{
 	"C02": {Prop: "C02", Engine: "c02", Pkg: "internal/driver", Level: "fault_enumeration", QuickS: 35, ThorS: 1500,
-		Rule:     "restricted to fault-reachable inputs: a corpus of valid encodings (seeded generated profiles, gzip and uncompressed, plus every file under profile/testdata and internal/driver/testdata that ParseData accepts: legacy heap/growth/contention/thread text, binary CPU profiles, Java formats; <=4 KiB in the quick tier, <=64 KiB in the thorough tier) is stored on the simulated disk, damaged by one enumerated storage or stream fault, and read back through simos by the real profile.Parse; a returned profile goes through an independent validity check, CheckValid, Write->Parse, Copy and Compact, and through eleven text reports (thorough tier: every damaged input that parses; quick tier: every 8th). Each run picks one corpus entry and one fault family and enumerates that family completely for the entry: truncation at every length (stored bytes and, for gzip, the payload re-compressed); every stored byte x five masks; every payload byte x five masks behind a valid gzip wrapper; every 512/64/16-byte sector zeroed, lost or duplicated; EIO at every read call after 0/1/100 bytes; 300 (3000 thorough) seeded 2-3-fault combinations incl. maximal varints, cuts and duplicated tails; plus 1-byte short reads on the undamaged file (must change nothing). A case is distinct by (corpus entry, content hash, family) and non-trivial always (every case damages a valid encoding)",
+		Rule:     "restricted to fault-reachable inputs: a corpus of valid encodings (seeded generated profiles, gzip and uncompressed, plus every file under profile/testdata and internal/driver/testdata that ParseData accepts: legacy heap/growth/contention/thread text, binary CPU profiles, Java formats; <=4 KiB in the quick tier, <=64 KiB in the thorough tier) is stored on the simulated disk, damaged by one enumerated storage or stream fault, and read back through simos by the real profile.Parse; a returned profile goes through an independent validity check, CheckValid, Write->Parse, Copy and Compact, and through eleven text reports (thorough tier: every damaged input that parses; quick tier: every 8th); every 97th damaged input additionally goes through the whole tool (driver.PProf -top on the file: error or report, no panic). Each run picks one corpus entry and one fault family and enumerates that family completely for the entry: truncation at every length (stored bytes and, for gzip, the payload re-compressed); every stored byte x five masks; every payload byte x five masks behind a valid gzip wrapper; every 512/64/16-byte sector zeroed, lost or duplicated; EIO at every read call after 0/1/100 bytes; 300 (3000 thorough) seeded 2-3-fault combinations incl. maximal varints, cuts and duplicated tails; plus 1-byte short reads on the undamaged file (must change nothing). A case is distinct by (corpus entry, content hash, family) and non-trivial always (every case damages a valid encoding)",
 		StateDef: "distinct (corpus entry, fault family) pairs enumerated",
 		Assume:   []string{"C02 quantifies over all byte strings; a simulator has no special access to that set, so this check covers only what a valid stored profile turns into under storage and stream faults (stated restriction, DESIGN.md §3 C02); inputs unrelated to any valid encoding are not covered", "'promptly' is a 20 s wall-clock cap per parse plus the worker watchdog; a parser that loops forever makes the check exit 2, not 1"}},
 	"C09": {Prop: "C09", Engine: "c09", Pkg: "internal/driver", Level: "exploration", QuickS: 40, ThorS: 1200,
